@@ -1,0 +1,11 @@
+//go:build verif
+
+package ljh
+
+// Thin read-only access for the out-of-tree verification harness (/verif/harness, property C05).
+// Compiled only with `-tags verif`; adds no behaviour to the normal build.
+
+// VerifLengths reports the header length and the record length the Reader computed in parseHeader.
+func (r *Reader) VerifLengths() (headerLength, recordLength int) {
+	return r.headerLength, r.recordLength
+}
